@@ -406,7 +406,38 @@ Definition judge_concurrent (c o : sexp) : verdict :=
   | _, _, _, _, _, _, _ => VBad "undecodable concurrent case"
   end.
 
+(** out-of-domain sizes: a negative size must be answered by an error, never by a panic *)
+Definition judge_negative (gen : string) (o : sexp) : verdict :=
+  match get_string "err" o, get_string "panic" o with
+  | Some gerr, Some gpanic =>
+    if negb (String.eqb gpanic "") then VOracle ("panic on an invalid (negative) size instead of an error: " ++ gpanic)
+    else if String.eqb gerr "" then VOracle "a negative size is accepted"
+    else VOk false (gen ++ ":rejected-negative")
+  | _, _ => VBad "undecodable observation"
+  end.
+
+(** StarTreeFromName with a name given twice: no panic; an error, or the star on the given names *)
+Definition has_dup (l : list string) : bool := negb (Nat.eqb (length (sset l)) (length l)).
+Definition judge_dupnames (names : list string) (o : sexp) : verdict :=
+  match get_string "err" o, get_string "panic" o with
+  | Some gerr, Some gpanic =>
+    if negb (String.eqb gpanic "") then VOracle ("panic on duplicated names instead of an error: " ++ gpanic)
+    else if negb (String.eqb gerr "") then VOk false "starnames:duplicates-rejected"
+    else match get_tree "tree" o, star_tree_from_name names with
+         | Some g, GOk t =>
+           if negb (wf g && star g && sset_eqb (ssort (leaves g)) (ssort names)) then VOracle "not the star tree on the given names"
+           else if utree_eqb t g then VOk true "starnames:duplicates" else VCorr ("model: " ++ show_utree t)
+         | _, _ => VBad "no tree in observation"
+         end
+  | _, _ => VBad "undecodable observation"
+  end.
+
 Definition judge (c o : sexp) : verdict :=
+  match get_string "gen" c, (x <- get "n" c ;; dec_Z x) with
+  | Some gen, Some nz =>
+    if (nz <? 0)%Z then judge_negative gen o else
+    let names0 := match get_strings "names" c with Some l => l | None => [] end in
+    if String.eqb gen "starnames" && has_dup names0 then judge_dupnames names0 o else
   match get_string "gen" c, get_nat "n" c, get_bool "rooted" c with
   | Some gen, Some n, Some rooted =>
     let names := match get_strings "names" c with Some l => l | None => [] end in
@@ -415,4 +446,6 @@ Definition judge (c o : sexp) : verdict :=
     else if String.eqb gen "topologies" then judge_topologies n rooted names o
     else judge_gen gen n rooted names o
   | _, _, _ => VBad "undecodable case"
+  end
+  | _, _ => VBad "undecodable case"
   end.
